@@ -20,7 +20,19 @@ JNext == /\ cs = None
          /\ UNCHANGED blk
          /\ \E j \in {k \in 1..Len(File) : k % NB = blk[2] - 1} : cs' = File[j]
 (* an untranslatable pattern must raise SOME error (the property does not fix its class) *)
-Agrees(want, got) == IF want.thr = "Unsupported" THEN got.thr \notin {"", "value"} ELSE want = got
+(* a replace result some part of which is implementation-defined (RegExpSpec!RxFrame): any string that *)
+(* starts with pre and ends with suf, without overlap                                                 *)
+FrameOK(fr, g) ==
+    /\ g.t = "str" /\ Len(g.s) >= Len(fr.pre) + Len(fr.suf)
+    /\ SubSeq(g.s, 1, Len(fr.pre)) = fr.pre
+    /\ SubSeq(g.s, Len(g.s) - Len(fr.suf) + 1, Len(g.s)) = fr.suf
+Agrees(want, got) ==
+    IF want.thr = "Unsupported" THEN got.thr \notin {"", "value"}
+    ELSE IF want.thr = "" /\ cs.m = "replace" /\ want.v.a[1].a[1].t = "frame"
+    THEN /\ got.thr = "" /\ got.log = want.log
+         /\ FrameOK(want.v.a[1].a[1], got.v.a[1].a[1])
+         /\ got.v.a[1].a[2] = want.v.a[1].a[2] /\ got.v.a[2] = want.v.a[2]
+    ELSE want = got
 Judge ==
     cs = None \/
     IF S!RxClassify(cs.src, cs.flags) = "lax" THEN PrintT("VJSON " \o ToJson([i |-> cs.i, skip |-> TRUE]))
